@@ -275,6 +275,9 @@ def eval_reader(model, template, token, include='+', type_='reg', global_meta=No
         out = ev.run(f, [sh], {})
         regs = [v for _, v in out.returns if isinstance(v, Obj)]
         reg = regs[-1] if regs else None
+        if reg is not None:
+            # how unconditional the construction is: (number of return outcomes, names of possible errors)
+            reg.outcome = (len(out.returns), sorted({n for _, n, _ in out.raises}))
     return o, sh, reg, (coords, lens)
 
 
@@ -334,6 +337,9 @@ def r3(ctx):
                 probs.append(f'the line written for a {wci.name} is read back as a {reg.cls}')
             if reg is None:
                 probs.append(f'the reader builds no region from the writer\'s own template ({template})')
+            elif coordsys == 'image' and set(getattr(reg, 'outcome', (1, []))[1]) - {'ValueError', 'TypeError'}:
+                probs.append(f'reading the writer\'s own image-frame line can end in {reg.outcome[1]} (the pixel branch of '
+                             'to_region is not taken unconditionally for a pixel centre)')
             else:
                 for f in fields:
                     got = reg.fields.get(f)
@@ -483,6 +489,41 @@ def r3(ctx):
             ctx.bad(construct, 'polygon-slots', '; '.join(probs[:2]), tc.loc(), {'template': ptpl})
         else:
             ctx.ok(construct, 'three written vertices come back as (x: 1, 3, 5; y: 2, 4, 6)')
+    # lines: the writer's template, read back: start = entries (1, 2), end = entries (3, 4), in both frames
+    f_, templates = _template_tokens(m)
+    ctx.need('line' in templates, '_ShapeList.to_crtf', 'line template not found')
+    ltpl = templates['line'][1].replace('FMT', '.6f')
+    for coordsys, gm in (('fk5', None), ('image', {'coord': Const('image')})):
+        construct = f'Line [{coordsys}]'
+        pr, sh, reg, _ = eval_reader(m, ltpl, templates['line'][0], global_meta=gm)
+        want_cls = 'LineSkyRegion' if coordsys == 'fk5' else 'LinePixelRegion'
+        probs = []
+        if reg is None or reg.cls != want_cls:
+            probs.append(f'`{ltpl}` is read as {show(reg, 120)}, not a {want_cls}')
+        else:
+            for fld, (k1, k2) in (('start', (1, 2)), ('end', (3, 4))):
+                v = reg.fields.get(fld)
+                if coordsys == 'image':
+                    a, b = (show(v.fields.get('x'), 300), show(v.fields.get('y'), 300)) if isinstance(v, Obj) else ('?', '?')
+                else:
+                    reps = _find_apps_named(v, 'UnitSphericalRepresentation') if v is not None else []
+                    a, b = (show(reps[0].args[0], 300), show(reps[0].args[1], 300)) if reps and len(reps[0].args) >= 2 else ('?', '?')
+                    if isinstance(v, App) and v.name == 'getitem' and is_num(v.args[1]) and reps and len(reps[0].args) >= 2:
+                        # element <i> of a coordinate array built from (lon list, lat list)
+                        def elem(t, i):
+                            tups = [x for x in walk_terms(t) if isinstance(x, Tup) and len(x.items) == 2]
+                            return show(tups[0].items[i], 300) if tups else '?'
+                        a, b = elem(reps[0].args[0], int(v.args[1])), elem(reps[0].args[1], int(v.args[1]))
+                others = {1, 2, 3, 4}
+                if not (f'T{k1}' in a and f'T{k2}' in b and not any(f'T{k}' in a for k in others - {k1})
+                        and not any(f'T{k}' in b for k in others - {k2})):
+                    probs.append(f'{fld} is built from ({a[:70]}, {b[:70]}), not bracket entries ({k1}, {k2})')
+            if coordsys == 'image' and set(getattr(reg, 'outcome', (1, []))[1]) - {'ValueError', 'TypeError'}:
+                probs.append(f'reading the line can end in {reg.outcome[1]}')
+        if probs:
+            ctx.bad(construct, 'line-slots', '; '.join(probs[:2]), tc.loc(), {'template': ltpl})
+        else:
+            ctx.ok(construct, 'start = entries (1, 2), end = entries (3, 4)')
     # explicit statement clause: ellipse axes are [major, minor] semi-axes = [height/2, width/2]
     ser, ev, out = eval_writer(m, m.cls('EllipseSkyRegion'), 'fk5')
     fc = _format_call(out)
@@ -959,7 +1000,7 @@ def r12(ctx):
 RULES = [
     RuleDef('R1', 'frame tables mutually inverse', r1, 8),
     RuleDef('R2', 'shape vocabulary: class -> type -> token -> class; text written', r2, 17),
-    RuleDef('R3', 'token-level writer∘reader: slots, units (radunit deg/arcsec/arcmin), ellipse axes; polygon vertices', r3, 19),
+    RuleDef('R3', 'token-level writer∘reader: slots, units (radunit deg/arcsec/arcmin), ellipse axes; polygon vertices; line ends', r3, 21),
     RuleDef('R4', 'include / annotation prefixes on both sides', r4, 4),
     RuleDef('R5', 'global then inline metadata', r5, 2),
     RuleDef('R6', 'lengths need units', r6, 1),
